@@ -123,7 +123,7 @@ int main(int argc, char **argv) {
         if (pid == 0) {
             char fn[512]; snprintf(fn, sizeof fn, "%s/err.%ld", errdir, k);
             int fd = open(fn, O_WRONLY | O_CREAT | O_TRUNC, 0644); if (fd >= 0) { dup2(fd, 2); close(fd); }
-            alarm(60);
+            alarm(getenv("FAULTINJ_ALARM_S") ? (unsigned)atoi(getenv("FAULTINJ_ALARM_S")) : 60); /* wall-clock guard; a hit is re-run alone with a long limit */
             fail_at = k;
             if (is_enc) session_enc(); else session_dec();
             printf("RESULT %ld fired_phase %ld rcs %ld %ld %ld %ld %ld %ld tasks %d\n", k, fired_phase, rcs[0], rcs[1], rcs[2], rcs[5], rcs[3], rcs[4], ntasks());
